@@ -17,10 +17,15 @@ import json
 import numpy as np
 
 PROP = 'C11'
-GENERATORS = []
+GENERATORS = ['gen_joins']
 TRUSTED = [
     'hand model coq/C11/Model.v of concatenate_arrays / get_mask_with_key_joins / Data.get_mask / Data.join_on_key / '
     'LinkManager add_link+remove_link for JoinLink: tied to the code by correspondence on the explored cases only',
+    'translated from the source on every run (tools/gen/gen_joins.py -> coq/gen/Gen_joins.v, fail-closed): the skeleton of get_mask_with_key_joins '
+    '(loop, _recursing protocol, try/except/finally, dispatch, which key columns through which view, the combining operations), the shape check and the '
+    'two registrations of Data.join_on_key, the datasets / ids LinkManager.add_link and remove_link take from a JoinLink; the numpy kernels are opaque '
+    'names there (the n-n block is compared with a text template) and are instantiated by the hand model',
+    'ComponentID identity: the model receives (uid, index of cid.parent) read off the real objects, and the per-dataset layout of uids',
     'numpy is the platform: np.isin compares by value after numeric promotion; S<n> items compare ignoring trailing NUL bytes; '
     'np.promote_types / np.asarray(dtype=) casts; the model takes the stored bytes (ndarray.tobytes, little endian) as input',
     'float keys: the model identifies a finite double with its bit pattern (+0.0 and -0.0 identified); an int and a float are compared exactly '
@@ -92,43 +97,113 @@ class Built(object):
     pass
 
 
+def col_array(c, shape):
+    return np.array(c['values'], dtype=c['dtype']).reshape(shape)
+
+
 def build(case):
-    """create the Data objects and run the join operations of the case on the real code"""
+    """create the Data objects and run the join operations of the case on the real code.
+
+    Identity of the key columns: a column spec may carry 'cid' =
+      None                  the dataset's own ComponentID (created by Data(**columns); cid.parent is the dataset)
+      ['fresh', p]          a ComponentID created on its own with parent = dataset p (None: no parent, add_component adopts it)
+      ['update', p]         created as an own column, then Data.update_id(old, ComponentID(label, parent = dataset p or None))
+      ['share', d, j]       stored under the ComponentID of column j of dataset d (Data.add_component(values, existing_cid));
+                            cid.parent stays whatever it is for (d, j) - in general NOT this dataset
+    case['dc'] (optional) = the datasets that are members of the DataCollection (default: all)."""
     from glue.core import Data, DataCollection
+    from glue.core.component_id import ComponentID
     from glue.core.link_helpers import JoinLink
     B = Built()
     B.case = case
     B.datas = []
+    B.cids = [[None] * len(ds['cols']) for ds in case['datasets']]
     for k, ds in enumerate(case['datasets']):
         shape = tuple(ds['shape'])
         kw = {}
         for j, c in enumerate(ds['cols']):
-            kw['c%d' % j] = np.array(c['values'], dtype=c['dtype']).reshape(shape)
+            if c.get('cid') is None:
+                kw['c%d' % j] = col_array(c, shape)
         kw['u'] = np.array(ds['u'], dtype=float).reshape(shape)
-        B.datas.append(Data(label='d%d' % k, **kw))
+        D = Data(label='d%d' % k, **kw)
+        B.datas.append(D)
+        for j, c in enumerate(ds['cols']):
+            if c.get('cid') is None:
+                B.cids[k][j] = D.id['c%d' % j]
+    for k, ds in enumerate(case['datasets']):
+        D = B.datas[k]
+        shape = tuple(ds['shape'])
+        for j, c in enumerate(ds['cols']):
+            prov = c.get('cid')
+            if prov is None or prov[0] == 'share':
+                continue
+            par = None if prov[1] is None else B.datas[prov[1]]
+            if prov[0] == 'fresh':
+                cid = ComponentID('c%d' % j, parent=par)
+                D.add_component(col_array(c, shape), cid)
+            elif prov[0] == 'update':
+                old = D.add_component(col_array(c, shape), 'c%d' % j)
+                cid = ComponentID('c%d' % j, parent=par)
+                D.update_id(old, cid)
+            else:
+                raise ValueError(prov)
+            B.cids[k][j] = cid
+    for k, ds in enumerate(case['datasets']):
+        D = B.datas[k]
+        shape = tuple(ds['shape'])
+        for j, c in enumerate(ds['cols']):
+            prov = c.get('cid')
+            if prov is not None and prov[0] == 'share':
+                src = B.cids[prov[1]][prov[2]]
+                if src is None or any(x is src for x in B.cids[k]):
+                    raise ValueError('ill-formed case: shared ComponentID %r' % (prov,))
+                D.add_component(col_array(c, shape), src)
+                B.cids[k][j] = src
     B.index = {id(d): k for k, d in enumerate(B.datas)}
+    B.pos = [{id(c): j for j, c in enumerate(cs)} for cs in B.cids]
     B.dc = None
     if any(op[0] != 'join' for op in case['ops']):
-        B.dc = DataCollection(B.datas)
+        members = case.get('dc')
+        B.dc = DataCollection(B.datas if members is None else [B.datas[k] for k in members])
     B.codes = []
     links = {}
+    active = []
+
+    def name_ok(D, cid):
+        return sum(1 for c in D.components if c.label == cid.label) == 1
     for i, op in enumerate(case['ops']):
         try:
             if op[0] == 'join':
                 _, a, b, ca, cb, style = op
                 A, Bd = B.datas[a], B.datas[b]
 
-                def arg(D, cs):
-                    ids = [D.id['c%d' % c] for c in cs] if style == 1 else ['c%d' % c for c in cs]
+                def arg(k, D, cs):
+                    ids = [B.cids[k][c] for c in cs]
+                    if style != 1 and all(name_ok(D, c) for c in ids):
+                        ids = [c.label for c in ids]
                     return ids[0] if (len(ids) == 1 and style != 2) else tuple(ids)
-                A.join_on_key(Bd, arg(A, ca), arg(Bd, cb))
+                A.join_on_key(Bd, arg(a, A, ca), arg(b, Bd, cb))
             elif op[0] == 'link':
-                _, a, b, ca, cb = op
+                a, b, ca, cb = op[1:5]
+                how = op[5] if len(op) > 5 else 'add'
                 A, Bd = B.datas[a], B.datas[b]
-                link = JoinLink(cids1=[A.id['c%d' % ca]], cids2=[Bd.id['c%d' % cb]], data1=A, data2=Bd)
+                link = JoinLink(cids1=[B.cids[a][ca]], cids2=[B.cids[b][cb]], data1=A, data2=Bd)
                 links[i] = link
-                B.dc.add_link(link)
+                if how == 'add':
+                    B.dc.add_link(link)
+                elif how == 'list':
+                    B.dc.add_link([link])
+                elif how == 'set':
+                    B.dc.set_links([links[x] for x in active] + [link])
+                else:
+                    raise ValueError(op)
+                active.append(i)
+            elif op[0] == 'relink':
+                B.dc.add_link(links[op[1]])
+                active.append(op[1])
             elif op[0] == 'unlink':
+                if op[1] in active:
+                    active.remove(op[1])
                 B.dc.remove_link(links[op[1]])
             else:
                 raise ValueError(op)
@@ -138,18 +213,20 @@ def build(case):
         except Exception as ex:
             msg = str(ex.args[0]) if ex.args else ''
             B.codes.append(1 if msg.startswith('Either the number of components') else ('exc', type(ex).__name__, msg[:80]))
-    # what the datasets now hold: Data._key_joins, in dict order
+    # what the datasets now hold: Data._key_joins, in dict order; ComponentIDs are reported as the position of the column they
+    # name in the dataset that holds the entry (own cids) / in the dataset the entry points to (other cids); -1 = not a column there
     B.joins = []
-    for d in B.datas:
+    for k, d in enumerate(B.datas):
         js = []
         for other, (c1, c2) in d._key_joins.items():
-            js.append((B.index.get(id(other), -1), [int(c.label[1:]) for c in c1], [int(c.label[1:]) for c in c2]))
+            o = B.index.get(id(other), -1)
+            js.append((o, [B.pos[k].get(id(c), -1) for c in c1], [B.pos[o].get(id(c), -1) if o >= 0 else -1 for c in c2]))
         B.joins.append(js)
     # stored key columns, as numpy holds them
     B.arrays = []
     for k, ds in enumerate(case['datasets']):
         D = B.datas[k]
-        B.arrays.append([np.asarray(D.get_data(D.id['c%d' % j])).ravel() for j in range(len(ds['cols']))])
+        B.arrays.append([np.asarray(D.get_data(B.cids[k][j])).ravel() for j in range(len(ds['cols']))])
     B.sizes = [int(np.prod(ds['shape'])) for ds in case['datasets']]
     return B
 
@@ -224,14 +301,24 @@ def model_line(B):
     n = len(case['datasets'])
     ds = ' '.join(table_txt(B.arrays[k], B.sizes[k]) for k in range(n))
     ops = []
-    for op in case['ops']:
-        if op[0] == 'join':
-            ops.append('(1 %d %d %s %s)' % (op[1], op[2], zl(0, op[3]), zl(0, op[4])))
-        elif op[0] == 'link':
-            ops.append('(1 %d %d %s %s)' % (op[1], op[2], zl(0, [op[3]]), zl(0, [op[4]])))
-        else:
-            o = case['ops'][op[1]]
-            ops.append('(2 %d %d %d %d)' % (o[1], o[2], o[3], o[4]))
+    # ComponentID identities as the real objects have them: uid = which object, parent = index of cid.parent
+    uid = {}
+    for cs in B.cids:
+        for c in cs:
+            uid.setdefault(id(c), len(uid))
+
+    def cid_txt(k, j):
+        c = B.cids[k][j]
+        return '(%d %d)' % (uid[id(c)], B.index.get(id(c.parent), n))
+    lay = ' '.join(zl(0, [uid[id(c)] for c in cs]) for cs in B.cids)
+    for grp in expand_ops(case):
+        for g in grp:
+            if g[0] == 'join':
+                ops.append('(1 %d %d %s %s)' % (g[1], g[2], zl(0, g[3]), zl(0, g[4])))
+            elif g[0] == 'link':
+                ops.append('(3 %d %d %s %s)' % (g[1], g[2], cid_txt(g[1], g[3]), cid_txt(g[2], g[4])))
+            else:
+                ops.append('(4 %d %d %s %s)' % (g[1], g[2], cid_txt(g[1], g[3]), cid_txt(g[2], g[4])))
     qs = []
     for q in case['queries']:
         _, masks = selection_masks(case, q['sel'])
@@ -239,7 +326,37 @@ def model_line(B):
         v = '(0)' if idx is None else zl(1, idx)
         ow = ' '.join(zl(1, masks[k]) if k in masks else '(0)' for k in range(n))
         qs.append('(0 %d %s (0 %s))' % (q['d'], v, ow))
-    return '(1 (0 %s) %s %s)' % (ds, '(0 %s)' % ' '.join(ops) if ops else '(0)', '(0 %s)' % ' '.join(qs) if qs else '(0)')
+    return '(4 (0 %s) (0 %s) %s %s)' % (ds, lay, '(0 %s)' % ' '.join(ops) if ops else '(0)', '(0 %s)' % ' '.join(qs) if qs else '(0)')
+
+
+def expand_ops(case):
+    """the case's operations as the calls they amount to on the two datasets named by each operation:
+    one group per operation of ('join', a, b, columns a, columns b) / ('link', a, b, column a, column b) / ('unlink', a, b, column a, column b).
+    set_links([active links..., new link]) = clear_links() (which leaves Data._key_joins alone) + add_link of each, in order."""
+    out = []
+    active = []
+    ops = case['ops']
+    for i, op in enumerate(ops):
+        if op[0] == 'join':
+            out.append([('join', op[1], op[2], list(op[3]), list(op[4]))])
+        elif op[0] == 'link':
+            how = op[5] if len(op) > 5 else 'add'
+            grp = []
+            if how == 'set':
+                grp = [('link', ops[x][1], ops[x][2], ops[x][3], ops[x][4]) for x in active]
+            grp.append(('link', op[1], op[2], op[3], op[4]))
+            active.append(i)
+            out.append(grp)
+        elif op[0] == 'relink':
+            o = ops[op[1]]
+            active.append(op[1])
+            out.append([('link', o[1], o[2], o[3], o[4])])
+        else:
+            o = ops[op[1]]
+            if op[1] in active:
+                active.remove(op[1])
+            out.append([('unlink', o[1], o[2], o[3], o[4])])
+    return out
 
 
 def selection_masks(case, sel):
@@ -247,6 +364,18 @@ def selection_masks(case, sel):
         e, t = sel[1], sel[2]
         return None, {e: [bool(x > t) for x in case['datasets'][e]['u']]}
     return None, {int(k): [bool(x) for x in v] for k, v in sel[1].items()}
+
+
+def fold_codes(codes, groups):
+    """one result per operation of the case: the first failure among the calls it amounts to"""
+    if not groups:
+        return codes
+    out, k = [], 0
+    for g in groups:
+        part = codes[k:k + g]
+        k += g
+        out.append(next((c for c in part if c != 0), 0))
+    return out
 
 
 def parse_model(t):
@@ -272,24 +401,42 @@ def parse_model(t):
 
 # ------------------------------------------------------------------ oracle: set-based join by Python value
 def oracle_graph(case):
-    """the join graph the operations ask for (both directions; a later join of the same pair replaces the earlier one).
-    Returns (graph, specified): specified is False when a link is removed after its join was replaced (behaviour not fixed by the property)."""
+    """the join graph the operations ask for, between the datasets the operations NAME (join_on_key's self / other, a JoinLink's
+    data1 / data2) - whatever ComponentID objects the key columns are stored under; both directions; a later join of the same
+    pair replaces the earlier one; a link added again (relink, or listed again in set_links) is joined again; a removed link no
+    longer joins.  Returns (graph, specified): specified is False when a link is removed after its join was replaced by another
+    one (behaviour not fixed by the property)."""
     n = len(case['datasets'])
     G = [dict() for _ in range(n)]
     owner = {}
     specified = True
-    for i, op in enumerate(case['ops']):
-        if op[0] in ('join', 'link'):
-            a, b = op[1], op[2]
-            ca, cb = (list(op[3]), list(op[4])) if op[0] == 'join' else ([op[3]], [op[4]])
-            if len(ca) > 1 and len(cb) > 1 and len(ca) != len(cb):
-                continue
-            G[a][b] = (ca, cb)
-            G[b][a] = (cb, ca)
-            owner[frozenset((a, b))] = i
+    ops = case['ops']
+    active = []
+
+    def establish(a, b, ca, cb, who):
+        if len(ca) > 1 and len(cb) > 1 and len(ca) != len(cb):
+            return
+        G[a][b] = (ca, cb)
+        G[b][a] = (cb, ca)
+        owner[frozenset((a, b))] = who
+    for i, op in enumerate(ops):
+        if op[0] == 'join':
+            establish(op[1], op[2], list(op[3]), list(op[4]), i)
+        elif op[0] == 'link':
+            if len(op) > 5 and op[5] == 'set':
+                for x in active:
+                    establish(ops[x][1], ops[x][2], [ops[x][3]], [ops[x][4]], x)
+            establish(op[1], op[2], [op[3]], [op[4]], i)
+            active.append(i)
+        elif op[0] == 'relink':
+            o = ops[op[1]]
+            establish(o[1], o[2], [o[3]], [o[4]], op[1])
+            active.append(op[1])
         else:
-            o = case['ops'][op[1]]
+            o = ops[op[1]]
             a, b = o[1], o[2]
+            if op[1] in active:
+                active.remove(op[1])
             if owner.get(frozenset((a, b))) != op[1]:
                 specified = False
                 continue
@@ -390,6 +537,7 @@ def check_case(R, case, stream, model_out=None, count=True):
         if mjoins is None:
             fails.append(('correspondence', None, {'model': mcodes, 'impl': 'case accepted by the implementation'}))
         else:
+            mcodes = fold_codes(mcodes, [len(g) for g in expand_ops(case)])
             if mcodes != B.codes:
                 fails.append(('correspondence', None, {'what': 'operation results', 'model': mcodes, 'impl': B.codes}))
             if [[(o, list(a), list(b)) for o, a, b in d] for d in mjoins] != [[(o, list(a), list(b)) for o, a, b in d] for d in B.joins]:
@@ -430,30 +578,68 @@ def shape_name(ca, cb):
 def shrink_candidates(case):
     c = case
     # fewer queries / ops
+    REF = ('unlink', 'relink')
     for i in range(len(c['ops']) - 1, -1, -1):
-        if any(op[0] == 'unlink' and op[1] == i for op in c['ops']):
+        if any(op[0] in REF and op[1] == i for op in c['ops']):
             continue
         d = copy.deepcopy(c)
         del d['ops'][i]
         for op in d['ops']:
-            if op[0] == 'unlink' and op[1] > i:
+            if op[0] in REF and op[1] > i:
                 op[1] -= 1
         yield d
+    # plainer ways of making the same join: add_link instead of list / set_links, join_on_key instead of a JoinLink that is
+    # never removed, every dataset in the collection, key columns under the dataset's own ComponentIDs
+    for i, op in enumerate(c['ops']):
+        if op[0] == 'link' and len(op) > 5 and op[5] != 'add':
+            d = copy.deepcopy(c)
+            d['ops'][i][5] = 'add'
+            yield d
+        if op[0] == 'link' and not any(o[0] in REF and o[1] == i for o in c['ops']):
+            d = copy.deepcopy(c)
+            d['ops'][i] = ['join', op[1], op[2], [op[3]], [op[4]], 1]
+            yield d
+    if c.get('dc') is not None:
+        d = copy.deepcopy(c)
+        del d['dc']
+        yield d
+
+    def refers(col, k):
+        prov = col.get('cid')
+        return prov is not None and ((prov[0] == 'share' and prov[1] == k) or (prov[0] != 'share' and prov[1] == k))
+    for k, ds in enumerate(c['datasets']):
+        for j, col in enumerate(ds['cols']):
+            if col.get('cid') is not None:
+                d = copy.deepcopy(c)
+                del d['datasets'][k]['cols'][j]['cid']
+                # columns stored under this column's ComponentID keep it only if it still is a source
+                yield d
+                if col['cid'][0] != 'share' and col['cid'][1] not in (None, k):
+                    d = copy.deepcopy(c)
+                    d['datasets'][k]['cols'][j]['cid'][1] = None
+                    yield d
     # drop an unused dataset (re-indexing the others)
     n = len(c['datasets'])
     for k in range(n - 1, -1, -1):
         if n <= 1:
             break
-        used = any(k in (op[1], op[2]) for op in c['ops'] if op[0] != 'unlink')
+        used = any(k in (op[1], op[2]) for op in c['ops'] if op[0] not in REF)
         used = used or any(q['d'] == k or (q['sel'][0] == 'ineq' and q['sel'][1] == k) or
                            (q['sel'][0] == 'table' and str(k) in q['sel'][1]) for q in c['queries'])
+        used = used or any(refers(col, k) for kk, ds in enumerate(c['datasets']) if kk != k for col in ds['cols'])
         if not used:
             d = copy.deepcopy(c)
             del d['datasets'][k]
             ren = lambda x: x - 1 if x > k else x      # noqa
             for op in d['ops']:
-                if op[0] != 'unlink':
+                if op[0] not in REF:
                     op[1], op[2] = ren(op[1]), ren(op[2])
+            for ds in d['datasets']:
+                for col in ds['cols']:
+                    if col.get('cid') is not None and col['cid'][1] is not None:
+                        col['cid'][1] = ren(col['cid'][1])
+            if d.get('dc') is not None:
+                d['dc'] = [ren(x) for x in d['dc'] if x != k]
             for q in d['queries']:
                 q['d'] = ren(q['d'])
                 if q['sel'][0] == 'ineq':
@@ -911,6 +1097,134 @@ def stream_random(R):
                    '(self-joins, re-joins, JoinLink add/remove, rejected shapes), selections evaluable on 0..3 datasets, every dataset asked, with and without a view' % (NUM_DT, STR_DT))
 
 
+def insert_op(ops, pos, op):
+    """insert an operation, keeping the references of unlink / relink (indices of link operations) right"""
+    for o in ops:
+        if o[0] in ('unlink', 'relink') and o[1] >= pos:
+            o[1] += 1
+    if op[0] in ('unlink', 'relink') and op[1] >= pos:
+        op = [op[0], op[1] + 1]
+    ops.insert(pos, op)
+
+
+def ident_case(rng):
+    """a random system (as rand_case) in which HOW a join is made and BETWEEN WHAT varies:
+      * single-key joins between two datasets are made by join_on_key or by a JoinLink given to the DataCollection
+        (add_link(link), add_link([link]), set_links(active links + [link])), some removed (remove_link), some removed and added again;
+      * key (and other) columns are stored under ComponentIDs that are not the dataset's own: the ComponentID of a column of another
+        dataset (add_component(values, existing_cid)) - in particular of the dataset on the other side of the join, so that both
+        sides name the key by the same id -, a free-standing ComponentID whose parent is another dataset or None, or one put in place
+        by Data.update_id;
+      * only some of the datasets are members of the DataCollection."""
+    case = rand_case(rng, force=rng.choice([None, None, 'chain', 'star', 'cycle']))
+    n = len(case['datasets'])
+    ops = case['ops']
+
+    def link_sigs():
+        return set((o[1], o[2], o[3], o[4]) for o in ops if o[0] == 'link')
+    # (1) more joins through the DataCollection
+    for i, o in enumerate(ops):
+        if o[0] == 'join' and o[1] != o[2] and len(o[3]) == 1 and len(o[4]) == 1 and rng.random() < 0.55:
+            sig, gis = (o[1], o[2], o[3][0], o[4][0]), (o[2], o[1], o[4][0], o[3][0])
+            if sig not in link_sigs() and gis not in link_sigs():
+                ops[i] = ['link', sig[0], sig[1], sig[2], sig[3], 'add']
+    for o in ops:
+        if o[0] == 'link':
+            if len(o) < 6:
+                o.append('add')
+            o[5] = rng.choice(['add', 'add', 'list', 'set'])
+    # removals, and re-additions of removed links
+    link_objs = [o for o in ops if o[0] == 'link']
+    for lo in link_objs:
+        idx = [k for k, o in enumerate(ops) if o is lo][0]
+        removed = [k for k, o in enumerate(ops) if o[0] == 'unlink' and o[1] == idx]
+        if not removed and rng.random() < 0.35:
+            pos = rng.randrange(idx + 1, len(ops) + 1)
+            insert_op(ops, pos, ['unlink', idx])
+            removed = [pos]
+        if removed and rng.random() < 0.5:
+            pos = rng.randrange(removed[0] + 1, len(ops) + 1)
+            insert_op(ops, pos, ['relink', idx])
+            if rng.random() < 0.3:
+                insert_op(ops, rng.randrange(pos + 1, len(ops) + 1), ['unlink', idx])
+    # (2) identities of the columns
+    ident = {}                                   # (dataset, column) -> the (dataset, column) whose ComponentID names it
+
+    def can_share(k, j, d, j0):
+        if d == k or case['datasets'][d]['cols'][j0].get('cid', None) is not None and case['datasets'][d]['cols'][j0]['cid'][0] == 'share':
+            return False
+        if any(c.get('cid') is not None and c['cid'][0] == 'share' and (c['cid'][1], c['cid'][2]) == (k, j)
+               for ds in case['datasets'] for c in ds['cols']):
+            return False                         # (k, j) is itself somebody's source
+        held = [ident.get((k, x), (k, x)) for x in range(len(case['datasets'][k]['cols'])) if x != j]
+        return (d, j0) not in held
+
+    def share(k, j, d, j0):
+        if can_share(k, j, d, j0):
+            case['datasets'][k]['cols'][j]['cid'] = ['share', d, j0]
+            ident[(k, j)] = (d, j0)
+            return True
+        return False
+
+    def foreign(k, j):
+        if case['datasets'][k]['cols'][j].get('cid') is None:
+            p = rng.choice([None, k] + [x for x in range(n) if x != k] * 2)
+            case['datasets'][k]['cols'][j]['cid'] = [rng.choice(['fresh', 'update']), p]
+    for o in list(ops):
+        if o[0] not in ('join', 'link') or o[1] == o[2]:
+            continue
+        ca, cb = (o[3], o[4]) if o[0] == 'join' else ([o[3]], [o[4]])
+        r = rng.random()
+        if r < 0.3:                               # both sides name the key by the same id
+            (k, j), (d, j0) = ((o[2], cb[0]), (o[1], ca[0])) if rng.random() < 0.5 else ((o[1], ca[0]), (o[2], cb[0]))
+            share(k, j, d, j0)
+        elif r < 0.6 and n > 2:                   # the key of one side is named by the id of a third dataset's column
+            k, j = rng.choice([(o[1], ca[0]), (o[2], cb[0])])
+            d = rng.choice([x for x in range(n) if x not in (o[1], o[2])])
+            share(k, j, d, rng.randrange(len(case['datasets'][d]['cols'])))
+        elif r < 0.75:
+            foreign(*rng.choice([(o[1], ca[0]), (o[2], cb[0])]))
+    for k in range(n):
+        for j in range(len(case['datasets'][k]['cols'])):
+            if case['datasets'][k]['cols'][j].get('cid') is None and rng.random() < 0.15:
+                if n > 1 and rng.random() < 0.6:
+                    d = rng.choice([x for x in range(n) if x != k])
+                    share(k, j, d, rng.randrange(len(case['datasets'][d]['cols'])))
+                else:
+                    foreign(k, j)
+    # a link whose removal fails (its join was replaced meanwhile) stays registered in the LinkManager: adding it again is outside
+    # the domain (ASSUMPTIONS: a JoinLink equal to a registered one is not added again)
+    if not oracle_graph(case)[1]:
+        seen = set()
+        keep = []
+        for i, o in enumerate(ops):
+            if o[0] == 'relink' or (o[0] == 'unlink' and o[1] in seen):
+                continue
+            if o[0] == 'unlink':
+                seen.add(o[1])
+            keep.append(i)
+        ren = {old: new for new, old in enumerate(keep)}
+        ops[:] = [[ops[i][0], ren[ops[i][1]]] if ops[i][0] == 'unlink' else ops[i] for i in keep]
+    # (3) membership of the collection
+    if rng.random() < 0.3:
+        case['dc'] = sorted(rng.sample(range(n), rng.randrange(0, n + 1)))
+    return case
+
+
+def stream_identities(R):
+    ncases = R.pick(700, 6000)
+    cases = [ident_case(R.subrng('identities', i)) for i in range(ncases)]
+    nq = 0
+    for i in range(0, len(cases), 250):
+        nq += run_cases(R, cases[i:i + 250], 'identities')
+    R.sample({'stream': 'identities', 'case': cases[0]})
+    R.stream('identities', systems=len(cases), queries=nq, exhaustive=False,
+             bound='as the random stream; single-key joins made by join_on_key or by a JoinLink through DataCollection.add_link(link) / add_link([link]) / '
+                   'set_links(active + [link]), removed, removed and added again; columns stored under the ComponentID of a column of another dataset '
+                   '(the other side of the join, or a third dataset), under a free-standing ComponentID with a foreign / no parent, or re-identified by update_id; '
+                   'datasets in and out of the DataCollection')
+
+
 def large_case(rng):
     """two datasets of 20..200 rows, keys drawn with many repetitions from overlapping pools of 15..60 distinct keys
     that are not small dense integers; most rows selected"""
@@ -1096,6 +1410,18 @@ CORPUS = [
                   {'shape': [20], 'cols': [{'dtype': 'f8', 'values': [i + 0.5 for i in range(20)]}], 'u': list(range(20))}],
      'ops': [['join', 0, 1, [0], [0], 0]],
      'queries': [{'d': 0, 'view': None, 'sel': ['table', {'1': [1] * 20}]}]},
+    # a JoinLink between obs (d2) and a table (d1) extracted from a catalogue (d0): the table stores its key under the catalogue's
+    # ComponentID; the link joins the two datasets it names, the catalogue is not joined; removing the link ends the propagation
+    {'datasets': [{'shape': [3], 'cols': [{'dtype': 'i8', 'values': [10, 11, 12]}], 'u': [0, 1, 2]},
+                  {'shape': [2], 'cols': [{'dtype': 'i8', 'values': [11, 12], 'cid': ['share', 0, 0]}], 'u': [0, 1]},
+                  {'shape': [4], 'cols': [{'dtype': 'i8', 'values': [12, 12, 10, 11]}], 'u': [0, 1, 2, 3]}],
+     'ops': [['link', 2, 1, 0, 0, 'add']],
+     'queries': [{'d': 1, 'view': None, 'sel': ['table', {'2': [1, 0, 0, 0]}]}, {'d': 2, 'view': None, 'sel': ['table', {'1': [1, 0]}]},
+                 {'d': 0, 'view': None, 'sel': ['table', {'2': [1, 0, 0, 0]}]}]},
+    {'datasets': [{'shape': [3], 'cols': [{'dtype': 'i8', 'values': [10, 11, 12]}], 'u': [0, 1, 2]},
+                  {'shape': [2], 'cols': [{'dtype': 'i8', 'values': [11, 12], 'cid': ['share', 0, 0]}], 'u': [0, 1]}],
+     'ops': [['link', 0, 1, 0, 0, 'set'], ['unlink', 0], ['relink', 0], ['unlink', 0]],
+     'queries': [{'d': 1, 'view': None, 'sel': ['table', {'0': [1, 0, 1]}]}]},
     # 3-cycle, nobody can evaluate
     {'datasets': [{'shape': [2], 'cols': [{'dtype': 'i8', 'values': [1, 2]}], 'u': [0, 1]} for _ in range(3)],
      'ops': [['join', 0, 1, [0], [0], 0], ['join', 1, 2, [0], [0], 0], ['join', 2, 0, [0], [0], 0]],
@@ -1122,6 +1448,7 @@ def run(R):
     stream_pairs(R)
     stream_large(R)
     stream_random(R)
+    stream_identities(R)
     stream_other_dtypes(R)
 
 
